@@ -190,7 +190,11 @@ func (fx *fixture) stallOracle(how string) {
 		}
 		return n, d, nil
 	}
-	deadline := time.Now().Add(15 * time.Second)
+	wait := 15 * time.Second
+	if fx.stallSeen {
+		wait = 2 * time.Second // already established with the generous period on this fixture; keep exploring
+	}
+	deadline := time.Now().Add(wait)
 	sleep := 50 * time.Millisecond
 	n, dump := 0, ""
 	for {
@@ -214,6 +218,12 @@ func (fx *fixture) stallOracle(how string) {
 		}
 	}
 	held := fx.origin.stalled.Load()
+	if fx.stallSeen {
+		fx.r.Count("fetch-stall.handler-still-parked(repeat)")
+		fx.origin.ReleaseStalls()
+		return
+	}
+	fx.stallSeen = true
 	fx.violation("C14:hang:grpc:Fetch.FetchBlob:stalling-origin:handler-outlives-client",
 		fmt.Sprintf("%d FetchBlob handler goroutine(s) are still parked in fetchItem 15 s after their client cancelled the call; the outgoing request ignores the call's context, so a stalling origin pins the handler and its connection (origin still holds %d request(s))", n, held),
 		map[string]any{"how": how, "stacks": stacksFor(dump, fn, 1)})
@@ -310,7 +320,7 @@ func init() {
 			var others []*blob
 			cur := dirBlob(&pb.Directory{Files: []*pb.FileNode{{Name: uniq(fx, rng), Digest: fx.pool.small[1].digest()}}})
 			others = append(others, cur)
-			for i := 0; i < 400; i++ {
+			for i := 0; i < 120; i++ {
 				cur = dirBlob(&pb.Directory{Directories: []*pb.DirectoryNode{{Name: "d", Digest: cur.digest()}}})
 				others = append(others, cur)
 			}
@@ -319,7 +329,7 @@ func init() {
 		{"wide-same-child", false, func(fx *fixture, rng *rand.Rand) (*blob, []*blob) {
 			c := fx.pool.children[0]
 			d := &pb.Directory{}
-			for i := 0; i < 2000; i++ {
+			for i := 0; i < 400; i++ {
 				d.Directories = append(d.Directories, &pb.DirectoryNode{Name: fmt.Sprintf("%s-%d", uniq(fx, rng), i), Digest: c.digest()})
 			}
 			return dirBlob(d), []*blob{c}
